@@ -4,6 +4,7 @@ CONSTANTS
   MaxTxPerBlock = 1
   MaxOps = 100000
   Window = 2
+  BlockBudget = 1000
   ActiveTxs = {"t1"}
   KF_FrozenLedgerHeight = FALSE
   KF_PlayKeepsStaleReader = FALSE
